@@ -2,7 +2,7 @@
 From Coq Require Import ZArith Reals List Lia Lra.
 From Flocq Require Import Core BinarySingleNaN.
 From GCL Require Proofs.TablesOk.
-From GCL Require Import Base.F64 Base.F64Facts Model.Measure Model.Limits Proofs.AimdProofs.
+From GCL Require Import Base.F64 Base.F64Facts Model.Measure Model.Limits Proofs.AimdProofs Proofs.GradSafe Proofs.GradDrop.
 
 (* AIMD moves exactly to max(1, min(limit-1, floor(limit x ratio))), the product being the binary64 product
    (round-to-nearest-even of the real product) that the implementation computes. *)
@@ -23,3 +23,13 @@ Print Assumptions C06_aimd_nonincrease.
 Theorem C06_tables_agree : TablesOk.tables_ok = true /\ TablesOk.functions_ok = true /\ TablesOk.log10f_ok = true.
 Proof. exact (conj TablesOk.tables_agree (conj TablesOk.functions_agree TablesOk.log10f_agrees)). Qed.
 Print Assumptions C06_tables_agree.
+
+(* Gradient: from every state satisfying the safety invariant GInv (C04: established at construction and preserved by every step)
+   whose estimate is at least the smallest queue allowance 4, a drop sample never raises the stored estimate - through the halving,
+   the binary64 smoothing (any smoothing in [2^-50, 1]) and the clamps, including when the sample is also a probe. States with an estimate
+   below 4 exist only when the limit is constructed with initial < 4 (known finding F5: there a drop raises the limit to the queue allowance). *)
+Theorem C06_gradient_nonincrease g Mx s o : GInv g Mx -> gsample_ok s -> s_drop s = true ->
+  (/ 1125899906842624 <= R (g_s g))%R -> (4 <= R (g_est g))%R ->
+  grad_step g s = Some o -> (R (g_est (o_st o)) <= R (g_est g))%R.
+Proof. exact (grad_drop_nonincrease g Mx s o). Qed.
+Print Assumptions C06_gradient_nonincrease.
